@@ -158,7 +158,8 @@ def make(Y, sp):
 
 
 def key(u):
-    return (u.scheme, u.raw_authority, u.raw_path, u.raw_query_string, u.raw_fragment)
+    # ("" for a missing query/fragment is what the accessors document; a None there is itself reported by axioms())
+    return (u.scheme, u.raw_authority, u.raw_path, u.raw_query_string or "", u.raw_fragment or "")
 
 
 def _cmp(ctx, a, b, op):
@@ -174,6 +175,8 @@ def axioms(ctx, urls, labels):
     n = len(urls)
     for i in range(n):
         a = urls[i]
+        ctx.check(all(isinstance(x, str) for x in (a.scheme, a.raw_authority, a.raw_path, a.raw_query_string, a.raw_fragment)), "a raw component accessor returned a non-string",
+                  observed=[repr(a.raw_query_string), repr(a.raw_fragment), labels[i]], expected="str", entry="eq")
         ctx.check((a == a) is True and (a != a) is False, "equality is not reflexive", observed=labels[i], expected=True, entry="eq")
         ctx.check(not (a < a) and not (a > a) and (a <= a) and (a >= a), "ordering of a URL against itself is incoherent", observed=labels[i], expected="a<=a, a>=a only", entry="order")
     for i, j in itertools.permutations(range(n), 2):
